@@ -247,7 +247,7 @@ func c19EndpointRun(c *core.Ctx, k c19EPCase) {
 func init() {
 	core.RegisterReplay("C19", func(c *core.Ctx, raw json.RawMessage) bool {
 		var k c19EPCase
-		if json.Unmarshal(raw, &k) != nil || !strings.Contains(string(raw), "first_write") {
+		if json.Unmarshal(raw, &k) != nil || !strings.Contains(string(raw), "first_write") || !strings.Contains(string(raw), "delta") {
 			return false
 		}
 		c19EndpointRun(c, k)
